@@ -179,6 +179,9 @@ def nested_walk(w, goals=(2, 1)):
     """two circuits of one originator carry data; then hosts outside send the exits' outside sockets datagrams that are
     tunnel-community data messages naming every circuit id in use (OutsideNested); data flows again afterwards"""
     cids = [build(w, "o", g) for g in goals]
+    # (only circuits that got ready carry data: with few relays a second long circuit may not find a path)
+    ready = {c["cid"] for c in w.project()["circ"]["o"] if not c["closing"] and len(c["hops"]) == c["goal"]}
+    cids = [c for c in cids if c in ready]
     for i, c in enumerate(cids):
         w.send_data("o", c, i + 1)
     while w.net.inflight:
